@@ -4,9 +4,9 @@ Spec specs/tpl/TplMatch.tla: the matcher as a small-step machine with an explici
 node, input position).  TLC enumerates every grammar of the cfg's bound (tokens, "", ?x *x +x, sequence,
 choice, %, ++, references incl. self / mutual recursion) x every input, proves on the model the stack
 invariant (no call in progress twice), the step bound (variant) and -- in the small cfgs -- <>halted;
-the dialect "guarded" (zero-progress guard + left-recursion check) is proved never to diverge.  The
-model diagnoses divergence of today's implementation (nullable repetition body, left recursion) and
-computes which grammars the compile-time analysis rejects.  The harness compares accept/reject with
+all registered cfgs model the repaired implementation (dialect "guarded": zero-progress guard + left-recursion
+check), proved never to diverge (NoHang); the model remembers where the guard was needed and which grammars
+only the left-recursion check rejects, so a regression is reported under its cause.  The harness compares accept/reject with
 the real tpl.New and runs every accepted (grammar, input) through Match / Parse / ParseExpr in watchdog
 child processes (CPU-time cap 2 s, heap cap, 8 MiB stack).  Alarm iff a real match does not return.
 """
@@ -14,10 +14,10 @@ import os
 
 LEVEL = "model_checking"
 
-QUICK = ["q1", "q2", "q3", "q4", "live"]
-QUICK_MODEL_ONLY = ["guarded", "guarded2"]
-THOROUGH = ["live", "q2", "q3", "t1", "t2", "t3", "t4", "t5"]
-THOROUGH_MODEL_ONLY = ["guarded", "guarded2", "tguarded"]
+# cfgs relevant to termination (nullable repetitions, self / mutual recursion, deep nesting); every cfg models the
+# repaired implementation (Dialect "guarded"); guarded* / tguarded additionally check <>halted (liveness).
+QUICK = ["q1", "q2", "q3", "guarded", "guarded2"]
+THOROUGH = ["q2", "q3", "t1", "t2", "t4", "guarded", "guarded2", "tguarded"]
 
 
 def run(ctx):
@@ -25,21 +25,19 @@ def run(ctx):
     if ctx.replay:
         open(cases, "w").write(ctx.replay["case_record"]["line"] + "\n")
     else:
-        cfgs, model_only = (QUICK, QUICK_MODEL_ONLY) if ctx.tier == "quick" else (THOROUGH, THOROUGH_MODEL_ONLY)
-        for c in cfgs:
+        for c in (QUICK if ctx.tier == "quick" else THOROUGH):
             ctx.tlc("tpl", "TplMatch", "TplMatch_%s.cfg" % c, cases_path=cases, timeout_s=3000, workers=8)
-        for c in model_only:   # the repaired design: proved on the model, not replayed
-            ctx.tlc("tpl", "TplMatch", "TplMatch_%s.cfg" % c, timeout_s=3000, workers=8)
     h = ctx.build_harness("tplh")
     res = ctx.run_harness(h, ["term"], cases, timeout_s=3000)
     ctx.tally(res, cases_path=cases)
     ctx.exhaustive = True
-    ctx.rule = ("every grammar of the cfg bounds (quick: depth 2 incl. 3-ary seq/alt x inputs <= 4 over {a , @}; two rules "
-                "of depth 2 with self/mutual references; depth 3 with one leaf operand per binary node; token classes; "
-                "thorough: every depth-3 grammar x inputs <= 3) x every input; one real execution per distinct "
-                "(grammar, input); distinct = grammar shape with token names erased / input length")
+    ctx.rule = ("every grammar of the cfg bounds x every input (quick: depth 2 incl. 3-ary seq/alt x inputs <= 3 over {a , @}; "
+                "two rules of depth 2 with self/mutual references x inputs <= 1; depth 3 with one leaf operand per binary "
+                "node x inputs <= 2; thorough: every depth-3 single-rule grammar over one token x inputs <= 2, depth 3 with a "
+                "leaf operand over two tokens and a foreign one); one real execution per distinct (grammar, input); "
+                "distinct = grammar shape with token names erased / input length")
     ctx.assumptions += ["a match that burns 2 s of CPU, holds 96 MiB of heap or overflows an 8 MiB goroutine stack on an input of <= 4 tokens "
                         "is taken as not returning",
                         "once a cause of divergence has been demonstrated 3 times on the real code the remaining "
-                        "predicted divergences of that cause are not executed (counted as skipped)",
+                        "pairs with that cause are not executed (counted as skipped); only matters on a regressed tree",
                         "inputs are scanned with NoInsertSemis; tokens a, c identifiers, `,` and `@` punctuation"]
